@@ -765,6 +765,7 @@ func coqProps(style pr.ElementStyle) string {
 type docDump struct {
 	styles      map[string]bool // counter style names used
 	unsupported string
+	pseudoLI    int // number of ::before / ::after with display: list-item
 }
 
 func (dd *docDump) items(cl pr.ContentProperties) string {
@@ -794,6 +795,30 @@ func (dd *docDump) use(st pr.CounterStyleID) {
 	}
 }
 
+// marker dumps what markerToBox generates from the ::marker style of `el`
+// (the ::marker of the element itself and of its list-item ::before / ::after:
+// build.go:411 reads styleFor.Get(element, "marker") in both cases).
+func (dd *docDump) marker(sf *tree.StyleFor, el *utils.HTMLNode) string {
+	mk := "MkNone"
+	ms := sf.Get(el, "marker")
+	switch {
+	case ms == nil:
+		dd.unsupported = "marker without style"
+	case ms.GetDisplay() == (pr.Display{"none"}):
+	case ms.GetContent().String != "normal" && ms.GetContent().String != "inhibit":
+		mk = fmt.Sprintf("(MkContent %s)", dd.items(ms.GetContent().Contents))
+	default:
+		if _, isURL := ms.GetListStyleImage().(pr.UrlImage); isURL {
+			dd.unsupported = "list-style-image"
+		}
+		if lst := ms.GetListStyleType(); lst.Name != "none" {
+			dd.use(lst)
+			mk = fmt.Sprintf("(MkNormal %s)", coqSid(lst))
+		}
+	}
+	return mk
+}
+
 func (dd *docDump) pseudo(sf *tree.StyleFor, el *utils.HTMLNode, which string) string {
 	style := sf.Get(el, which)
 	if style == nil {
@@ -803,10 +828,12 @@ func (dd *docDump) pseudo(sf *tree.StyleFor, el *utils.HTMLNode, which string) s
 	if style.GetDisplay() == (pr.Display{"none"}) || content.String == "none" || content.String == "normal" || content.String == "inhibit" {
 		return "None"
 	}
+	mk := "MkNone"
 	if style.GetDisplay().Has("list-item") {
-		dd.unsupported = "list-item pseudo-element"
+		mk = dd.marker(sf, el)
+		dd.pseudoLI++
 	}
-	return fmt.Sprintf("(Some (Pseudo %s %s))", coqProps(style), dd.items(content.Contents))
+	return fmt.Sprintf("(Some (Pseudo %s %s %s))", coqProps(style), mk, dd.items(content.Contents))
 }
 
 func (dd *docDump) elem(sf *tree.StyleFor, el *utils.HTMLNode) string {
@@ -821,22 +848,7 @@ func (dd *docDump) elem(sf *tree.StyleFor, el *utils.HTMLNode) string {
 	}
 	mk := "MkNone"
 	if !skip && style.GetDisplay().Has("list-item") {
-		ms := sf.Get(el, "marker")
-		switch {
-		case ms == nil:
-			dd.unsupported = "marker without style"
-		case ms.GetDisplay() == (pr.Display{"none"}):
-		case ms.GetContent().String != "normal" && ms.GetContent().String != "inhibit":
-			mk = fmt.Sprintf("(MkContent %s)", dd.items(ms.GetContent().Contents))
-		default:
-			if _, isURL := ms.GetListStyleImage().(pr.UrlImage); isURL {
-				dd.unsupported = "list-style-image"
-			}
-			if lst := ms.GetListStyleType(); lst.Name != "none" {
-				dd.use(lst)
-				mk = fmt.Sprintf("(MkNormal %s)", coqSid(lst))
-			}
-		}
+		mk = dd.marker(sf, el)
 	}
 	var kids []string
 	if !skip {
@@ -907,6 +919,9 @@ func docCase(w *vlib.Writer, kind, htmlText string, tags []string) {
 	if o.Status != "ok" {
 		desc["panic"] = o.Site + ": " + o.Msg
 		tags = append(tags, "impl-panic")
+	}
+	if dd.pseudoLI > 0 {
+		tags = append(tags, "pseudo-list-item")
 	}
 	w.Add(vlib.Case{
 		Kind: kind,
@@ -981,7 +996,13 @@ func genContent(r *vlib.Rng, big bool) string {
 	return strings.Join(parts, " ")
 }
 
-func genDoc(r *vlib.Rng) string {
+// pli: documents with ::before / ::after pseudo-elements that are list items
+// (display: list-item: own ::marker, implicit list-item increment) and with a
+// counter-style list-style-type inherited from body / classes, so that the
+// marker text of such a pseudo-element depends on the counter values. The
+// extra random draws are made only when pli is set (the other documents of a
+// given VERIF_SEED stay what they were).
+func genDoc(r *vlib.Rng, pli bool) string {
 	var sb strings.Builder
 	sb.WriteString("<style>\n")
 	// huge counter values only in documents without author-defined / symbolic styles
@@ -1017,6 +1038,17 @@ func genDoc(r *vlib.Rng) string {
 		} else if r.Chance(1, 10) {
 			extra = "counter-set: " + genCints(r, true, big) + "; "
 		}
+		if pli {
+			if r.Chance(3, 5) {
+				extra += "display: list-item; "
+			}
+			if r.Chance(1, 6) {
+				extra += "counter-set: " + genCints(r, true, big) + "; "
+			}
+			if r.Chance(1, 6) {
+				extra += "counter-reset: " + genCints(r, true, big) + "; "
+			}
+		}
 		fmt.Fprintf(&sb, ".b%d::before { %scontent: %s }\n", i, extra, genContent(r, big))
 	}
 	for i := 0; i < 2; i++ {
@@ -1024,7 +1056,42 @@ func genDoc(r *vlib.Rng) string {
 		if r.Chance(1, 4) {
 			extra = "counter-increment: " + genCints(r, true, big) + "; "
 		}
+		if pli {
+			if r.Chance(3, 5) {
+				extra += "display: list-item; "
+			}
+			if r.Chance(1, 5) {
+				extra += "counter-reset: " + genCints(r, true, big) + "; "
+			} else if r.Chance(1, 5) {
+				extra += "counter-set: " + genCints(r, true, big) + "; "
+			}
+		}
 		fmt.Fprintf(&sb, ".a%d::after { %scontent: %s }\n", i, extra, genContent(r, big))
+	}
+	if pli {
+		lst := func() string {
+			pool := append([]string{`"→"`, `symbols(cyclic "◆" "◇")`, `symbols(numeric "0" "1" "2")`, "none", "decimal", "lower-roman"}, docStyles...)
+			if big {
+				pool = pool[:len(pool)-3] // author-defined styles are not installed in big documents
+			}
+			return vlib.Pick(r, pool)
+		}
+		if r.Chance(4, 5) {
+			fmt.Fprintf(&sb, "body { list-style-type: %s }\n", lst())
+		}
+		for i := 0; i < 2; i++ {
+			fmt.Fprintf(&sb, ".t%d { list-style-type: %s }\n", i, lst())
+		}
+		if r.Chance(1, 4) {
+			sb.WriteString("body { list-style-position: inside }\n")
+		}
+		if r.Chance(1, 5) {
+			// the ::marker style of an element is also the one of its list-item ::before / ::after
+			fmt.Fprintf(&sb, ".b0::marker, .a0::marker { content: %s }\n", genContent(r, big))
+		}
+		if r.Chance(1, 6) {
+			sb.WriteString("body { counter-reset: list-item }\n")
+		}
 	}
 	if r.Chance(1, 5) {
 		fmt.Fprintf(&sb, "li::marker { content: %s }\n", genContent(r, big))
@@ -1054,6 +1121,9 @@ func genDoc(r *vlib.Rng) string {
 				if r.Chance(1, c.odds) {
 					cls = append(cls, fmt.Sprintf("%s%d", c.p, r.Intn(c.n)))
 				}
+			}
+			if pli && r.Chance(1, 5) {
+				cls = append(cls, fmt.Sprintf("t%d", r.Intn(2)))
 			}
 			if depth > 0 && r.Chance(1, 14) {
 				cls = append(cls, "n")
@@ -1272,8 +1342,8 @@ func main() {
 					Desc: map[string]interface{}{"rule": rule.text, "intended": wantD, "parsed": gotD},
 					Tags: tags, Nontrivial: true})
 			}
-		default: // (b) documents
-			docCase(w, "doc", genDoc(r), []string{"doc"})
+		default: // (b) documents; one third of them with list-item ::before / ::after
+			docCase(w, "doc", genDoc(r, k >= 18), []string{"doc"})
 		}
 	}
 }
